@@ -31,7 +31,11 @@ fn parse_seed(s: &str) -> Option<u64> {
 
 fn main() {
     // a panic inside the library is data: keep stderr quiet
-    std::panic::set_hook(Box::new(|_| {}));
+    std::panic::set_hook(Box::new(|info| {
+        if enc::GUARD_DEPTH.load(std::sync::atomic::Ordering::SeqCst) == 0 {
+            eprintln!("harness: internal panic: {}", info);
+        }
+    }));
     let args: Vec<String> = std::env::args().collect();
     if args.len() < 2 {
         usage();
@@ -49,7 +53,7 @@ fn main() {
                 if line.trim().is_empty() {
                     continue;
                 }
-                let r = enc::guard(|| replay::eval(&line)).unwrap_or_else(|| format!("{} => HARNESS-PANIC", line));
+                let r = std::panic::catch_unwind(|| replay::eval(&line)).unwrap_or_else(|_| format!("{} => HARNESS-PANIC", line));
                 if writeln!(out, "{}", r).is_err() {
                     break;
                 }
@@ -61,6 +65,13 @@ fn main() {
                 usage();
             }
             let prop = args[2].to_uppercase();
+            let valid = prop.len() == 3
+                && prop.starts_with('C')
+                && prop[1..].parse::<u32>().map(|n| (1..=20).contains(&n)).unwrap_or(false);
+            if !valid {
+                eprintln!("harness: unknown property {}", prop);
+                std::process::exit(2);
+            }
             let thorough = match args[3].as_str() {
                 "quick" => false,
                 "thorough" => true,
@@ -103,9 +114,9 @@ fn main() {
             cx.sink.add("corpus_fens_rejected", cx.corpus.rejected as u64);
             cx.sink.add("corpus_mirrored_roots", cx.corpus.derived as u64);
             cx.sink.add("corpus_ep_mark_without_predecessor", cx.corpus.ep_without_predecessor as u64);
-            let known = match enc::guard(|| props::run(&prop, &mut cx)) {
-                Some(k) => k,
-                None => {
+            let known = match std::panic::catch_unwind(std::panic::AssertUnwindSafe(|| props::run(&prop, &mut cx))) {
+                Ok(k) => k,
+                Err(_) => {
                     eprintln!("harness: internal panic while generating {}", prop);
                     std::process::exit(3);
                 }
